@@ -4,9 +4,9 @@ CONSTANTS
   Legacy = {}
   InitOn = {"M1"}
   InitSub = {}
-  Kinds = {"tools"}
+  Kinds = {}
   NotifOf <- NotifStd
-  Uris = {}
+  Uris = {"u1"}
   Want <- WantAll
   CapOff = {}
   CapMode <- ModeInferred
@@ -16,15 +16,15 @@ CONSTANTS
   SendGate = "configured"
   TTLPos = TRUE
   D = 2
-  MaxTime = 3
-  MaxChanges = 1
-  MaxUpdates = 0
+  MaxTime = 4
+  MaxChanges = 0
+  MaxUpdates = 1
   MaxCalls = 2
-  NPages = 2
+  NPages = 1
   ListenOwns = TRUE
   ResubRace = TRUE
   GenCheck = TRUE
-  ColdBump = TRUE
+  ColdBump = FALSE
   ModernUnsub = FALSE
   ForeignUnsub = FALSE
   Listeners = {}
@@ -35,9 +35,9 @@ CONSTANTS
   GateNames = {"put"}
   ClientFirst = FALSE
   MinSteps = 1
-  MaxSteps = 7
+  MaxSteps = 9
   Bias = FALSE
   Script <- ScriptNone
-  GenOps = {"change", "tchange", "updated", "list", "tick", "hold", "release"}
-INVARIANTS Export
+  GenOps = {"subscribe", "updated", "list", "expire", "hold", "release"}
+INVARIANTS LeadFresh
 CHECK_DEADLOCK FALSE
